@@ -1,5 +1,6 @@
 import Prom.Lemmas.C17Aux
 import Prom.Lemmas.C17Buckets
+import Prom.Lemmas.C17Vec
 
 namespace Prom.C17
 open Prom
@@ -412,4 +413,94 @@ open Prom
     non-empty — the hypothesis of `checkAndAdjustP_no_panic` — and itself an accepted list -/
 theorem default_buckets_nonempty : Gen.defaultBuckets ≠ [] ∧ bucketsOk Gen.defaultBuckets = true := by
   decide
+end Prom.C17
+
+namespace Prom.C17
+open Prom
+
+/-- lookups never change the declared label names (nor whether building fails) -/
+theorem afterLookups_names (v : MVec) (pre : List (List Str)) :
+    (afterLookups v pre).names = v.names ∧ (afterLookups v pre).buildFails = v.buildFails := by
+  induction pre generalizing v with
+  | nil => exact ⟨rfl, rfl⟩
+  | cons a t ih =>
+    rw [afterLookups_cons]
+    have h1 := ih (withLabelValues v a).1
+    have h2 := wlv_names v a
+    exact ⟨h1.1.trans h2.1, h1.2.trans h2.2⟩
+
+/-- **lookup_ok_iff** — `get_metric_with_label_values` on a vector in ANY state (whatever children it
+    already holds) whose metric builder does not fail: it returns Ok exactly when one value per
+    declared label is given -/
+theorem lookup_ok_iff (v : MVec) (hb : v.buildFails = false) (vals : List Str) :
+    (∃ id, (withLabelValues v vals).2 = .ok id) ↔ vals.length = v.names.length := by
+  constructor
+  · rintro ⟨id, h⟩
+    by_cases hl : vals.length = v.names.length
+    · exact hl
+    · unfold withLabelValues at h
+      rw [hash_err v vals hl] at h
+      simp at h
+  · intro hl
+    unfold withLabelValues
+    rw [hash_ok v vals hl]
+    simp only []
+    unfold getOrCreate
+    cases hlk : lookupKey v (vecKey vals) with
+    | some id => exact ⟨id, rfl⟩
+    | none =>
+      simp only [hb]
+      exact ⟨_, rfl⟩
+
+/-- **illformed_lookup_after_any_history** — no history of earlier lookups (so no set of existing
+    children, in particular not the child of the empty value) makes an ill-formed lookup succeed:
+    it is refused with the cardinality error and the vector is left as it was -/
+theorem illformed_lookup_after_any_history (v0 : MVec) (pre : List (List Str)) (vals : List Str)
+    (h : vals.length ≠ v0.names.length) :
+    withLabelValues (afterLookups v0 pre) vals =
+      (afterLookups v0 pre, .error (.card v0.names.length vals.length)) := by
+  have hn := (afterLookups_names v0 pre).1
+  unfold withLabelValues
+  rw [hash_err _ vals (by rw [hn]; exact h), hn]
+
+/-- **remove_ok_iff** — `remove_label_values` on a vector in any state returns Ok exactly when it is
+    well-formed and the key of the given values is present -/
+theorem remove_ok_iff (v : MVec) (vals : List Str) :
+    (removeLabelValues v vals).2 = .ok () ↔
+      (vals.length = v.names.length ∧ (lookupKey v (vecKey vals)).isSome = true) := by
+  unfold removeLabelValues
+  by_cases hl : vals.length = v.names.length
+  · rw [hash_ok v vals hl]
+    simp only []
+    unfold removeKey
+    cases hlk : lookupKey v (vecKey vals) with
+    | some id => simp [hl]
+    | none => simp
+  · rw [hash_err v vals hl]
+    simp [hl]
+
+/-- **remove_after_lookup_ok** — a well-formed removal of values that an earlier well-formed lookup
+    created (builder not failing, no removal in between) succeeds -/
+theorem remove_after_lookup_ok (v0 : MVec) (hb : v0.buildFails = false) (pre : List (List Str))
+    (vals : List Str) (hm : vals ∈ pre) (hl : vals.length = v0.names.length) :
+    (removeLabelValues (afterLookups v0 pre) vals).2 = .ok () := by
+  rw [remove_ok_iff]
+  exact ⟨by rw [(afterLookups_names v0 pre).1]; exact hl,
+    (lookupKey_isSome_iff _ _).2 (afterLookups_present v0 hb pre vals hm hl)⟩
+
+/-- **remove_fresh_err** — a vector without children refuses every removal -/
+theorem remove_fresh_err (v : MVec) (hc : v.children = []) (vals : List Str) :
+    ∃ e, (removeLabelValues v vals).2 = .error e := by
+  unfold removeLabelValues
+  by_cases hl : vals.length = v.names.length
+  · rw [hash_ok v vals hl]
+    simp only []
+    unfold removeKey
+    have : lookupKey v (vecKey vals) = none := by
+      unfold lookupKey; rw [hc]; rfl
+    rw [this]
+    exact ⟨_, rfl⟩
+  · rw [hash_err v vals hl]
+    exact ⟨_, rfl⟩
+
 end Prom.C17
